@@ -5,6 +5,7 @@ pub mod evidence;
 pub mod exprgen;
 pub mod fmtcheck;
 pub mod front;
+pub mod layout;
 pub mod lsphist;
 pub mod mutate;
 pub mod pipeline;
@@ -27,3 +28,8 @@ pub mod wasmi;
 /// TypeScript type-eraser + batched execution under the real node
 #[cfg(feature = "exec")]
 pub mod tsrun;
+/// differential execution + C01/C03/C04 judgements
+#[cfg(feature = "exec")]
+pub mod diffexec;
+#[cfg(all(feature = "exec", feature = "pgen"))]
+pub mod diffcheck;
